@@ -376,6 +376,21 @@ func genConservative(tier string, rng *RNG, emit func(Case)) {
 	for _, d := range docs {
 		emit(Case{Op: "gfm", Args: []string{hx(d)}})
 	}
+	// CJK clauses: EVERY pair of printable ASCII characters around a soft line break (end of one line, start of the
+	// next), plain and inside emphasis - the East Asian line-break rules look at exactly these two characters
+	for ci, cl := range consClauses {
+		if !cl.ascii {
+			continue
+		}
+		for a := byte(0x21); a < 0x7f; a++ {
+			for b := byte(0x21); b < 0x7f; b++ {
+				emit(Case{Op: "ext", Args: []string{fmt.Sprint(ci), "0", hx([]byte{'x', a, '\n', b, 'y', '\n'})}})
+				if (int(a)+int(b))%7 == 0 {
+					emit(Case{Op: "ext", Args: []string{fmt.Sprint(ci), "1", hx([]byte{'p', ' ', a, '\n', '*', b, 'q', '*', '\n'})}})
+				}
+			}
+		}
+	}
 }
 
 func removeLetters(s, rm string) string {
